@@ -230,6 +230,8 @@ def make_contractions(basis_dict, atoms, coords, coord_types):
             f"If coord_types is a list, it must be the same length as the total number of contractions."
             f"got {len(coord_types)}"
         )
+    # work on a copy: the caller's list must not be emptied, and a tuple must be accepted
+    coord_types = list(coord_types)
 
     # make shells
     for icenter, (atom, coord) in enumerate(zip(atoms, coords)):
